@@ -61,11 +61,12 @@ Definition E_AttrValue := 13.        (* Invalid attribute value (BlockAttrsSpec)
 Definition E_TransformFailed := 14.  (* Transform function failed *)
 Definition E_Validate := 15.         (* an error reported by ValidateSpec.Func *)
 Definition E_Eval := 16.             (* an already evaluated attribute carried an error *)
+Definition E_AttrTypes := 17.        (* Inconsistent attribute value types (BlockAttrsSpec) *)
 
 Definition P_Label := 1.             (* "BlockListSpec used in non-block context" / index out of range *)
 Definition P_MapDynamic := 2.        (* "cty.DynamicPseudoType attributes may not be used inside a BlockMapSpec" *)
 Definition P_MapLabels := 3.         (* slice bounds out of range: no label names / too few labels *)
-Definition P_ElemTypes := 4.         (* cty.ListVal/SetVal/MapVal: inconsistent element types *)
+Definition P_ElemTypes := 4.         (* cty.MapVal in BlockMapSpec's ctyMap: inconsistent element types *)
 Definition P_Refine := 5.            (* RefinementBuilder panics *)
 
 Definition N_Ununifiable := 1.       (* BlockList/BlockSet returned cty.DynamicVal *)
@@ -233,7 +234,7 @@ Definition set_val (vs : list val) : option val :=
    nil conversions (convert/unify.go: every path ends in `Equals` checks), which
    is taken as a shortcut here; otherwise Cty/Convert.v [unify_n], which does not
    cover types with a dynamic part nested inside ([HUnsup]; on the real code that
-   is where cty.ListVal/SetVal panic: report, finding "blocklist-nested-dynamic"). *)
+   is where cty.CanListVal/CanSetVal fail and an error + unknown is returned). *)
 Inductive homog :=
 | HOk (vs : list val) (unified : bool)
 | HNoUnify            (* UnifyUnsafe returned NilType *)
@@ -401,7 +402,7 @@ Fixpoint sdecode (s : spec) (c : ctx) (ct : content) (lbls : list (list Z)) {str
       | b :: rest =>
           let dup := match rest with [] => [] | _ => [DDErr E_DuplicateBlock] end in
           let '(v, ds) := via_body (implied_schema n) (sdecode n c) (bbody b) (blabels b) in
-          (v, dup ++ ds)
+          (prepare_body_val v (bbody b), dup ++ ds)
       end
   | SBlockList tn n mn mx =>
       let '(vs, ds, unk) :=
@@ -415,7 +416,12 @@ Fixpoint sdecode (s : spec) (c : ctx) (ct : content) (lbls : list (list Z)) {str
         | [] => (VList (implied_type n) [], ds)
         | _ =>
             match homogenise vs with
-            | HOk vs' u => or_panic (list_val vs') (ds ++ if u then [DDNote N_Unified] else [])
+            | HOk vs' u =>
+                let ds := ds ++ if u then [DDNote N_Unified] else [] in
+                match list_val vs' with          (* cty.CanListVal, then cty.ListVal *)
+                | Some v => (v, ds)
+                | None => (VUnk (TList (implied_type n)) rf_none, ds ++ [DDErr E_Inconsistent])
+                end
             | HNoUnify | HConvFail => (dyn_val, ds ++ [DDErr E_Inconsistent; DDNote N_Ununifiable])
             | HUnsup => (dyn_val, ds ++ [DDUnsupported])
             end
@@ -441,7 +447,12 @@ Fixpoint sdecode (s : spec) (c : ctx) (ct : content) (lbls : list (list Z)) {str
         | [] => (VSet (implied_type n) [], ds)
         | _ =>
             match homogenise vs with
-            | HOk vs' u => or_panic (set_val vs') (ds ++ if u then [DDNote N_Unified] else [])
+            | HOk vs' u =>
+                let ds := ds ++ if u then [DDNote N_Unified] else [] in
+                match set_val vs' with           (* cty.CanSetVal, then cty.SetVal *)
+                | Some v => (v, ds)
+                | None => (VUnk (TSet (implied_type n)) rf_none, ds ++ [DDErr E_Inconsistent])
+                end
             | HNoUnify | HConvFail => (dyn_val, ds ++ [DDErr E_Inconsistent; DDNote N_Ununifiable])
             | HUnsup => (dyn_val, ds ++ [DDUnsupported])
             end
@@ -488,7 +499,7 @@ Fixpoint sdecode (s : spec) (c : ctx) (ct : content) (lbls : list (list Z)) {str
           let dup := match rest with [] => [] | _ => [DDErr E_DuplicateBlock] end in
           let '(attrs, jds) := just_attributes (bbody b) in
           match attrs with
-          | [] => (VMap ety [], dup ++ jds)
+          | [] => (prepare_body_val (VMap ety []) (bbody b), dup ++ jds)
           | _ =>
               let rs := map (fun a =>
                   let '(v, ds) := aeval c (snd a) in
@@ -497,8 +508,11 @@ Fixpoint sdecode (s : spec) (c : ctx) (ct : content) (lbls : list (list Z)) {str
                   | CErr _ => (fst a, (VUnk ety rf_none, ds ++ [DDErr E_AttrValue]))
                   | CUnsupported => (fst a, (VUnk ety rf_none, ds ++ [DDUnsupported]))
                   end) attrs in
-              or_panic (map_val (map (fun r => (fst r, fst (snd r))) rs))
-                       (dup ++ jds ++ flat_map (fun r => snd (snd r)) rs)
+              let ds := dup ++ jds ++ flat_map (fun r => snd (snd r)) rs in
+              match map_val (map (fun r => (fst r, fst (snd r))) rs) with   (* cty.CanMapVal, then cty.MapVal *)
+              | Some v => (prepare_body_val v (bbody b), ds)
+              | None => (VUnk (TMap ety) rf_none, ds ++ [DDErr E_AttrTypes])
+              end
           end
       end
   | SBlockLabel i _ =>
